@@ -263,12 +263,49 @@ def sf_F(eng, st, args, kw, node):
     return V(("float",), objective(eng, st, args[0], args[1]))
 
 
+def fobj_arr(eng, st, task: V, p: V):
+    """the values of a list-valued objective at position p: an uninterpreted array-valued function of the coordinates"""
+    el = st.seq_elems(p)
+    fs = eng.ctx.fsort()
+    return _uf("FobjArr", z3.IntSort(), el.sort(), z3.IntSort(), z3.ArraySort(z3.IntSort(), fs))(task.z, el, st.seq_len(p))
+
+
+def w0_arr(eng, task_z):
+    """ghost: the objective weights the task was built with (ValidTask: the list is not mutated afterwards)"""
+    return _uf("W0", z3.IntSort(), z3.ArraySort(z3.IntSort(), eng.ctx.fsort()))(task_z)
+
+
+def nobj_of(task_z):
+    return _uf("nobj", z3.IntSort(), z3.IntSort())(task_z)
+
+
 def weighted(eng, st, task: V, p: V):
     """W(F(p)): the objective itself, or the weight-vector dot product of the objective list"""
-    el = st.seq_elems(p)
     if eng.case_env.get("__obj__", "scalar") == "scalar":
         return objective(eng, st, task, p)      # scalar objective, no weights (ValidTask): W(F) is F
-    return _uf("WF", z3.IntSort(), el.sort(), z3.IntSort(), eng.ctx.fsort())(task.z, el, st.seq_len(p))
+    fa = fobj_arr(eng, st, task, p)
+    w0 = w0_arr(eng, task.z)
+    eng.ctx.tags.add("AX_numpy_dot_is_a_function_of_the_elements")
+    return z3.Function("dot", fa.sort(), w0.sort(), z3.IntSort(), eng.ctx.fsort())(fa, w0, nobj_of(task.z))
+
+
+def sf_Fk(eng, st, args, kw, node):
+    """Fk(task, x, k): the k-th value of the list-valued objective at x"""
+    task, x, k = args
+    return V(("float",), z3.Select(fobj_arr(eng, st, task, x), k.z))
+
+
+def sf_weights_are(eng, st, args, kw, node):
+    """weights_are(task): the weight list of the task still holds the weights the task was built with (ghost W0)"""
+    task = args[0]
+    w = st.read_field(task, "objective_weights")
+    n = st.seq_len(w)
+    el = st.seq_elems(w)
+    i = z3.Int(eng.ctx.fresh_name("wk"))
+    body = qforall([i], z3.Implies(z3.And(i >= 0, i < n), el[i] == w0_arr(eng, task.z)[i]), patterns=[el[i]])
+    if w.none is not None:
+        return _b(z3.Or(w.none, body))
+    return _b(body)
 
 
 def sf_WF(eng, st, args, kw, node):
@@ -307,7 +344,7 @@ def sf_nobj(eng, st, args, kw, node):
 
 
 BuiltinMixin.SPEC_FUNCS.update({"flat": sf_flat, "Dom": sf_Dom, "Space": sf_Space, "F": sf_F, "WF": sf_WF, "Fit": sf_Fit,
-                                "Valid": sf_Valid, "nobj": sf_nobj})
+                                "Valid": sf_Valid, "nobj": sf_nobj, "Fk": sf_Fk, "weights_are": sf_weights_are})
 
 
 def sf_is_scalar_objective(eng, st, args, kw, node):
